@@ -41,9 +41,17 @@ def enc_join(v, j):
     return header(v, j["hseq"], 0x24) + body
 
 
+def _n(x):
+    """a field of the packet as a number; anything that is not a number is recorded as its repr (and then differs)"""
+    try:
+        return int(x)
+    except Exception:  # noqa
+        return "not a number: " + repr(x)
+
+
 class Check(PropertyCheck):
     pid = "C13"
-    gen_files = ["GenCmd", "GenCallbacks"]
+    gen_files = ["GenCmd", "GenCallbacks", "GenAppFn"]
     model_imports = ["lib.EzspTypes", "gen.GenCmd", "gen.GenCallbacks", "model.EzspCodec", "model.EzspCases", "model.Translate"]
     run_expr = "run_c13_case"
     case_type = "(N * Z * list N)"
@@ -186,10 +194,10 @@ class Check(PropertyCheck):
                 p = r[1]
                 import zigpy.types as zt
                 mode = {zt.AddrMode.NWK: 0, zt.AddrMode.Group: 1, zt.AddrMode.Broadcast: 2}[p.dst.addr_mode]
-                out.append({"k": "packet", "src": int(p.src.address), "src_mode_nwk": p.src.addr_mode == zt.AddrMode.NWK,
-                            "src_ep": int(p.src_ep), "dst": [mode, int(p.dst.address)], "dst_ep": int(p.dst_ep),
-                            "tsn": int(p.tsn), "profile": int(p.profile_id), "cluster": int(p.cluster_id),
-                            "data": list(p.data.serialize()), "lqi": int(p.lqi), "rssi": int(p.rssi)})
+                out.append({"k": "packet", "src": _n(p.src.address), "src_mode_nwk": p.src.addr_mode == zt.AddrMode.NWK,
+                            "src_ep": _n(p.src_ep), "dst": [mode, _n(p.dst.address)], "dst_ep": _n(p.dst_ep),
+                            "tsn": _n(p.tsn), "profile": _n(p.profile_id), "cluster": _n(p.cluster_id),
+                            "data": list(p.data.serialize()), "lqi": _n(p.lqi), "rssi": _n(p.rssi)})
             elif r[0] == "join":
                 out.append({"k": "join", "nwk": r[1], "ieee": list(r[2]), "parent": r[3]})
             else:
@@ -217,7 +225,7 @@ class Check(PropertyCheck):
                 z += [2, e["nwk"]] + e["ieee"] + [e["parent"]]
             else:
                 z += [3, e["nwk"]] + e["ieee"]
-        return z + [-1]
+        return [v if isinstance(v, int) else -9999 for v in z] + [-1]
 
     def monitor(self, case, obs):
         if "crash" in obs:
